@@ -314,7 +314,7 @@ class Scheduler:
         if self.keep_events:
             t = self.cur
             self.events.append((t.name if t else "-", kind, data))
-        if kind in ("send", "append", "finish", "recv", "acq"):
+        if kind in ("send", "append", "finish", "pipe-recv", "clear"):
             self.idle_streak = 0
 
     def concurrent(self):
